@@ -343,12 +343,16 @@ def check_const_to_qtype(ctx: Ctx):
     ok = len(test) == 1 and norm(test[0].test).replace(" ", "") == f"value<2**{d}.BIT_SIZE" and norm(test[0].body[0]).replace(" ", "") == f"return{d}.const(value)"
     ctx.check(ok, "SB-CONST", fi, "fits iff value < 2**BIT_SIZE, encoded by that type", "", "the fit test / encoder of the integer constant inference changed", loops[0])
     chain = [s for s in fi.body if isinstance(s, ast.If)]
-    order = [norm(s.test) for s in (chain[0],)] if chain else []
-    ch, els = q.if_chain(chain[0]) if chain else ([], [])
+    ch, els = q.dispatch_chain(fi.body)
     kinds = [norm(t) for t, _ in ch]
-    ctx.check(kinds[:3] == ["isinstance(value, int)", "isinstance(value, str)", "isinstance(value, float)"], "SB-CONST", fi, "int / str / float constants dispatched by their own type", str(kinds), f"dispatch order/kinds changed: {kinds}", chain[0] if chain else fi.node)
+    want = ["isinstance(value, int)", "isinstance(value, str)", "isinstance(value, float)"]
+    if sorted(kinds[:3]) != sorted(want):
+        ctx.undecided(fi.short, f"constant dispatch tests are {kinds}: not the int / str / float classification")
+    else:
+        # bool is an int for isinstance: the order matters only between overlapping tests, and none of these overlap
+        ctx.ok("SB-CONST", fi, "int / str / float constants dispatched by their own type", str(kinds), chain[0] if chain else fi.node)
     tail = fi.body[-1]
-    ctx.check(isinstance(tail, ast.Raise), "DP-CLOSED", fi, "constants of no known type raise", "", "falls off the end", fi.node)
+    ctx.check(isinstance(tail, ast.Raise) or (els is not None and len(els) > 0 and isinstance(els[-1], ast.Raise)), "DP-CLOSED", fi, "constants of no known type raise", "", "a constant of no known type falls off the end of const_to_qtype (None is returned instead of an error)", fi.node)
 
 
 def check_nested_decoding(ctx: Ctx):
@@ -366,22 +370,53 @@ def check_nested_decoding(ctx: Ctx):
     core, par = q.reversal_parity(l.iter)
     ctx.check(par == 0 and norm(core) == f"get_args({it.params[1]})", "OR-SEQ", it, "element types visited forward", norm(l.iter), f"iterates `{norm(l.iter)}`", l)
     x = norm(l.target)
-    size_var = None
-    for s in l.body:
-        if isinstance(s, ast.Assign) and isinstance(s.value, ast.Call) and norm(s.value.func) == "_getsize" and norm(s.value.args[0]) == x:
-            size_var = norm(s.targets[0])
-    ctx.check(size_var is not None, "OR-SEQ", it, "element width from _getsize(element type)", "", "the width of an element is not computed by _getsize of its own type", l)
-    sl = [n for n in ast.walk(l) if isinstance(n, ast.Subscript) and isinstance(n.slice, ast.Slice) and norm(n.value) == it.params[0]]
-    ok = False
-    idx = None
-    if len(sl) == 1 and sl[0].slice.lower is not None and sl[0].slice.upper is not None:
-        idx = norm(sl[0].slice.lower)
-        ok = norm(sl[0].slice.upper).replace(" ", "") == f"{idx}+{size_var}"
-    ctx.check(ok, "OR-SEQ", it, "each element reads exactly its own bits", f"out[{idx} : {idx} + {size_var}]", f"the element slice is `{norm(sl[0]) if sl else '?'}`: it must start at the running offset and be bounded by the element's own width (an unbounded slice hides a wrong width)", l)
-    inc = [s for s in l.body if isinstance(s, ast.AugAssign) and norm(s.target) == idx and isinstance(s.op, ast.Add) and norm(s.value) == size_var]
-    ctx.check(len(inc) == 1, "OR-SEQ", it, "offset advances by the element's width", "", "the running offset is not advanced by the width of the element just read", l)
-    rec = [c for c in q.calls(l) if norm(c.func) == "_interpret"]
-    ctx.check(len(rec) == 1 and norm(rec[0].args[1]) == x and norm(rec[0].args[2]) == size_var, "OR-SEQ", it, "element decoded with its own type and width", "", "", l)
+    bits, width_p = it.params[0], it.params[2]
+    rec = [c for c in q.calls(l) if norm(c.func) == it.name]
+    if len(rec) != 1 or len(rec[0].args) != 3:
+        ctx.undecided(it.short, f"tuple branch: {len(rec)} recursive calls with (bits, type, width) in the element loop")
+        return
+    call = rec[0]
+    call_stmt = q.enclosing_stmt(it, call)
+    env = q.straight_line_env(l.body, call_stmt)
+    ctx.check(norm(call.args[1]) == x, "OR-SEQ", it, "element decoded with its own type", norm(call)[:70], f"`{norm(call)[:90]}` decodes the element with type `{norm(call.args[1])}`, not with its own type `{x}`", call)
+    W = f"{gs.name}({x})"
+    wform = q.linear_form(call.args[2], env)
+    sl = call.args[0]
+    if not (isinstance(sl, ast.Subscript) and isinstance(sl.slice, ast.Slice) and norm(sl.value) == bits and sl.slice.step is None):
+        ctx.undecided(it.short, f"tuple branch: the element is not decoded from a slice of `{bits}` (`{norm(sl)[:60]}`)")
+        return
+    lo = q.linear_form(sl.slice.lower, env) if sl.slice.lower is not None else {}
+    up = q.linear_form(sl.slice.upper, env) if sl.slice.upper is not None else None
+    if wform is None or lo is None:
+        ctx.undecided(it.short, "tuple branch: width / offset of the element are not integer-linear expressions")
+        return
+    ctx.check(wform == {W: 1}, "OR-SEQ", it, "element width from _getsize(element type)", f"width = {W}", f"the width handed to the recursive call is `{norm(call.args[2])}` (= {wform}), not {W}: the width of an element is the size of its own type", call)
+    # the offset variable: the only name in the lower bound that is carried from iteration to iteration
+    offs = [k for k in lo if k and not k.startswith(gs.name + "(")]
+    if len(offs) != 1 or lo != {offs[0]: 1}:
+        ctx.undecided(it.short, f"tuple branch: the slice starts at `{norm(sl.slice.lower) if sl.slice.lower else 0}`, not at one running offset")
+        return
+    off = offs[0]
+    if up is None:
+        ctx.fail("OR-SEQ", it, "each element reads exactly its own bits", f"the element slice `{norm(sl)}` has no upper bound: it must be bounded by the element's own width (an unbounded slice hides a wrong width)", sl)
+    else:
+        diff = dict(up)
+        for k, v in lo.items():
+            diff[k] = diff.get(k, 0) - v
+        diff = {k: v for k, v in diff.items() if v}
+        ctx.check(diff == {W: 1}, "OR-SEQ", it, "each element reads exactly its own bits", f"{bits}[{off} : {off} + {W}]", f"the element slice is `{norm(sl)}` (length {diff}): it must start at the running offset and be exactly {W} long", sl)
+    # advance of the offset over one iteration
+    end_env = q.straight_line_env(l.body, None)
+    adv = q.linear_form(ast.Name(id=off, ctx=ast.Load()), end_env) if off in end_env else None
+    if adv is None:
+        ctx.fail("OR-SEQ", it, "offset advances by the element's width", f"the running offset `{off}` is not updated in the loop: every element is read from the same position", l)
+    else:
+        start = off + "@in" if (off + "@in") in adv else off
+        step = {k: v for k, v in adv.items() if k != start}
+        carried = adv.get(start, 0) == 1
+        ctx.check(carried and step == {W: 1}, "OR-SEQ", it, "offset advances by the element's width", f"{off} += {W}", f"over one iteration the offset `{off}` becomes {adv}: it must grow by exactly {W}, the width of the element just read", l)
+    inits = [n for n in walk_no_nested(it.node) if isinstance(n, ast.Assign) and norm(n.targets[0]) == off and not q.contains(l, n)]
+    ctx.check(len(inits) == 1 and norm(inits[0].value) == "0", "OR-SEQ", it, "first element starts at offset 0", norm(inits[0]) if inits else "", f"the running offset starts at `{norm(inits[0].value) if inits else '?'}`", inits[0] if inits else l)
     app = q.method_calls(l, "append")
     ctx.check(len(app) == 1 and not any(isinstance(n, ast.Call) and isinstance(n.func, ast.Attribute) and n.func.attr == "insert" for n in ast.walk(l)), "OR-SEQ", it, "values collected in element order", "", "", l)
     # _getsize: BIT_SIZE, recursive sum over get_args, 1 for bool
@@ -403,12 +438,16 @@ def check_nested_decoding(ctx: Ctx):
     ok = len(leaf) == 1 and norm(leaf[0].value.args[0]).replace(" ", "") in (f"{it.params[0]}[0:{it.params[2]}]", f"{it.params[0]}[:{it.params[2]}]")
     ctx.check(ok, "OR-SEQ", it, "a Qtype leaf decodes the first out_len bits", "", "", it.node)
     # top level: reversed once
-    top = [n for n in fi.body if isinstance(n, ast.Assign) and norm(n.targets[0]) == fi.params[0]]
-    ok = False
-    if len(top) == 1:
-        core, par = q.reversal_parity(top[0].value)
-        ok = par == 1 and isinstance(core, ast.Call) and norm(core.func) == "format_outcome"
-    ctx.check(ok, "OR-FLOW", fi, "measurement-order input reversed exactly once before decoding", "", "interpret_as_qtype must turn the MSB-first reading into the LSB-first list the decoders take, once", fi.node)
+    entry = [c for r in q.returns(fi) for c in q.calls(r) if norm(c.func) == it.name]
+    if len(entry) != 1 or not entry[0].args:
+        ctx.undecided(fi.short, "the decoder is not started by one call of the nested _interpret from a return statement")
+    else:
+        binds = {n.targets[0].id: n.value for n in fi.body if isinstance(n, ast.Assign) and isinstance(n.targets[0], ast.Name)}
+        core, par = q.reversal_parity(entry[0].args[0], binds)
+        if not (isinstance(core, ast.Call) and norm(core.func) == "format_outcome"):
+            ctx.undecided(fi.short, f"the decoded sequence `{norm(entry[0].args[0])[:60]}` does not come from format_outcome(...)")
+        else:
+            ctx.check(par == 1, "OR-FLOW", fi, "measurement-order input reversed exactly once before decoding", norm(entry[0].args[0])[:60], f"the reading is reversed {par} time(s) mod 2 between format_outcome and the decoder: interpret_as_qtype must turn the MSB-first reading into the LSB-first list the decoders take, exactly once", entry[0])
 
 
 def check_modmask(ctx: Ctx):
